@@ -3154,8 +3154,9 @@ func rangeInt(n *node) {
 	next := n.exec
 	index := index0
 	ixn.exec = func(f *frame) bltn {
-		f.data[index2] = value(f) // set max
-		f.data[index].SetInt(-1)  // assing index value
+		// The range expression is evaluated once: copy the bound, which may be a variable set in the body.
+		f.data[index2].SetInt(value(f).Int()) // set max
+		f.data[index].SetInt(-1)              // assing index value
 		return next
 	}
 }
